@@ -1,3 +1,5 @@
+import GPy.C06.Gen
+import GPy.C20.Gen
 import GPy.C03.Gen
 import GPy.C19.Gen
 import GPy.C05.Gen
@@ -17,5 +19,7 @@ def main (args : List String) : IO UInt32 := do
     | "C05" => GPy.C05.genMain tier seed; return 0
     | "C19" => GPy.C19.genMain tier seed; return 0
     | "C03" => GPy.C03.genMain tier seed; return 0
+    | "C20" => GPy.C20.genMain tier seed; return 0
+    | "C06" => GPy.C06.genMain tier seed; return 0
     | _ => IO.eprintln s!"unknown property {prop}"; return 2
   | _ => IO.eprintln "usage: gpymodel <Cxx> <quick|thorough> <seed>"; return 2
